@@ -1485,6 +1485,7 @@ func init() {
 				byName[p.name] = p
 			}
 			c14Fixed(c)
+			c14RejectedFuncs(c)
 			// systematic family: quick takes every 10th case (offset by the seed), thorough all
 			stride := n(c.Tier, 10, 1)
 			off := int(c.Seed % int64(stride))
@@ -1506,6 +1507,9 @@ func init() {
 		},
 		Replay: func(c *core.Ctx, raw json.RawMessage) {
 			if c14FixedReplay(c, raw) {
+				return
+			}
+			if c14FuncsReplay(c, raw) {
 				return
 			}
 			var cs c14Case
